@@ -1,3 +1,4 @@
+import AndaVerif.Gen.BeliefPolicy
 /-
 Model of the epistemic projection of `anda_cognitive_nexus`
 (rs/anda_cognitive_nexus/src/projection/mod.rs and projection/policy.rs).
@@ -25,7 +26,9 @@ of the policy: any finite set of rationals has a common denominator); scores are
 the harness maps numbers to fixed-width strings order-preservingly); actors, Evidence ids and
 Propositions are numbers; the store query that yields the rows of a Proposition in id order is an
 input (`rows` in recording order). Floating point is not modelled (see notes/C20.md, *partial*).
-Import-free: linked into `drv_c20`.
+The baseline / forecast constants are not written here: they are regenerated from policy.rs into
+`Gen/BeliefPolicy.lean` on every check and used below as the model's `Policy.baseline`.
+Imports only generated data: linked into `drv_c20`.
 -/
 namespace AndaVerif.Belief
 
@@ -108,13 +111,26 @@ structure Policy where
   expand : Bool
   deriving Repr
 
-def baselineModes : List Mode := [.observed, .stated, .inferred, .imported]
-def forecastModes : List Mode := [.predicted, .inferred]
+/-- serde's lowercase names of `AssertionMode`. -/
+def Mode.ofName : String → Option Mode
+  | "observed" => some .observed
+  | "stated" => some .stated
+  | "inferred" => some .inferred
+  | "predicted" => some .predicted
+  | "hypothetical" => some .hypothetical
+  | "imported" => some .imported
+  | _ => none
 
-/-- `Policy::baseline()` at resolution `den = 10`: accept 0.7, material 0.3, unstated 0.5. -/
+def baselineModes : List Mode := Gen.BeliefPolicy.baselineModes.filterMap Mode.ofName
+def forecastModes : List Mode := Gen.BeliefPolicy.forecastModes.filterMap Mode.ofName
+
+/-- `Policy::baseline()`, from the generated constants (today: resolution 10, accept 7, material 3,
+unstated 5, modes observed/stated/inferred/imported, conflicts expanded, version 1). -/
 def Policy.baseline : Policy :=
-  { id := ⟨.baseline, false⟩, version := 1, modes := baselineModes, den := 10,
-    accept := 7, material := 3, unstated := 5, expand := true }
+  { id := ⟨.baseline, false⟩, version := Gen.BeliefPolicy.baselineVersion, modes := baselineModes,
+    den := Gen.BeliefPolicy.baselineDen, accept := Gen.BeliefPolicy.baselineAccept,
+    material := Gen.BeliefPolicy.baselineMaterial, unstated := Gen.BeliefPolicy.baselineUnstated,
+    expand := Gen.BeliefPolicy.baselineExpand }
 
 /-- `Policy::forecast()`. -/
 def Policy.forecast : Policy :=
@@ -178,6 +194,14 @@ def parseModes : List (Option Mode) → Except PolicyErr (List Mode)
     | .ok ms => .ok (m :: ms)
     | .error e => .error e
 
+/-- The optional `modes` setting. -/
+def parseModesOpt : Option (List (Option Mode)) → Except PolicyErr (Option (List Mode))
+  | none => .ok none
+  | some ms =>
+    match parseModes ms with
+    | .ok l => .ok (some l)
+    | .error e => .error e
+
 /-- `Policy::from_settings`, with the baseline expressed at resolution `10 * k`. -/
 def Policy.fromSettings (k : Nat) (s : Settings) : Except PolicyErr Policy :=
   let base : Except PolicyErr Policy :=
@@ -197,11 +221,7 @@ def Policy.fromSettings (k : Nat) (s : Settings) : Except PolicyErr Policy :=
       | .error e => .error e
       | .ok mat =>
         let p2 := match mat with | some v => { p1 with material := v } | none => p1
-        let modesR : Except PolicyErr (Option (List Mode)) :=
-          match s.modes with
-          | none => .ok none
-          | some ms => match parseModes ms with | .ok l => .ok (some l) | .error e => .error e
-        match modesR with
+        match parseModesOpt s.modes with
         | .error e => .error e
         | .ok ms =>
           let p3 := match ms with | some l => { p2 with modes := l } | none => p2
